@@ -8,7 +8,7 @@ open Genshi Genshi.Heap Genshi.Sexp
   val    N | T | F | <int> | s<hex> | ( L atom* ) | ( F s<tag> )
   expr   ( v s<name> ) | ( l val ) | ( eq e e ) | ( not e ) | ( call s<f> ) | ( call s<f> e )
   ref    ( t n ) | ( p n )
-  ev     ( O <event> ) | ( X expr ) | ( S ref ref ) | U
+  ev     ( O <event> ) | ( X expr ) | ( S ref ref ) | ( I t|N ref|N ) | U
   dir    ( id kind args* )
   cell   ( E ev* ) | ( D dir* )
   act    a | ( o ( ( s<key> val )* ) ) | ( n i ) | x | p | r     (atoms must not start with `s`)
@@ -53,6 +53,10 @@ def tev? : Sexp → Option TEv
   | .list [.atom "X", e] => (expr? e).map .expr
   | .list [.atom "S", d, b] => do let d ← ref? d; let b ← ref? b; pure (.sub d b)
   | .atom "U" => some .other
+  | .list [.atom "I", t, fb] => do
+      let t : Option Nat ← (match t with | .atom "N" => some none | x => x.toNat?.map some)
+      let fb : Option Ref ← (match fb with | .atom "N" => some none | x => (ref? x).map some)
+      pure (.incl t fb)
   | _ => none
 
 def dir? : Sexp → Option Dir
@@ -126,6 +130,7 @@ def errName : Err → String
   | .attribute => "AttributeError"
   | .runtime => "TemplateRuntimeError"
   | .stopIter => "RuntimeError"
+  | .notFound => "TemplateNotFound"
   | .unmodelled => "unmodelled"
   | .fuel => "fuel"
 
@@ -145,7 +150,8 @@ def ctxOut (c : Ctx) : Sexp :=
 def changed (a b : Heap) : List Nat :=
   (List.range (max a.length b.length)).filter fun i => a[i]? != b[i]?
 
-def flags (w : World) : Sexp := .list [ofBool w.streamPrepared, ofBool w.prepared]
+/-- `_stream` holds the prepared list / `_prepared`, for every template of the loader -/
+def flags (w : World) : Sexp := .list (w.tmpls.map fun x => .list [ofBool x.streamPrepared, ofBool x.prepared])
 
 /-- renders other than `i` whose private state changed (always empty: the model's shape) -/
 def obsOut (w0 w1 : World) : Obs → Sexp
@@ -157,7 +163,10 @@ def obsOut (w0 w1 : World) : Obs → Sexp
            (match w1.renders[i]? with | some r => ctxOut r.ctx | none => .atom "N"),
            .list ((changed w0.heap w1.heap).map ofNat),
            -- `len(stack)` inside `_flatten`: the suspended iterators (the model's list includes the current one)
-           (match w1.renders[i]? with | some r => ofNat r.stack.length | none => .atom "N")]
+           (match w1.renders[i]? with
+            | some r => (match r.frames.getLast? with | some f => ofNat f.stack.length | none => .atom "N")
+            | none => .atom "N"),
+           flags w1]
   | .extracted tr e =>
     .list [.atom "extracted", .list (tr.map ofNat),
            (match e with | some e => .atom (errName e) | none => .atom "ok"),
@@ -170,11 +179,12 @@ def runAll (v : Variant) (fuel : Nat) : World → List Act → List Sexp
     obsOut w w1 o :: runAll v fuel w1 as
 
 def handle : List Sexp → Option Sexp
-  | [.atom "run", cc, xc, tr, fuel, .list cells, .list acts] => do
+  | [.atom "run", cc, xc, tr, fuel, .list roots, .list cells, .list acts] => do
       let cc ← cc.toBool?; let xc ← xc.toBool?; let tr ← tr.toBool?; let fuel ← fuel.toNat?
+      let roots ← roots.mapM Sexp.toNat?
       let image ← cells.mapM cell?
       let acts ← acts.mapM act?
-      pure (.list (runAll ⟨cc, xc⟩ fuel (World.init image tr) acts))
+      pure (.list (runAll ⟨cc, xc⟩ fuel (World.init image roots tr) acts))
   | [.atom "race", n, .list sched] => do
       let n ← n.toNat?
       let sched ← sched.mapM Sexp.toNat?
